@@ -238,7 +238,7 @@ SPELLINGS = [
 ]
 
 
-def _judge_put(before, after, entry, exit_code, label):
+def _judge_put(before, after, entry, exit_code, label, expect_success=False):
     """C01 on one run: before/after are snapshots of the sandbox"""
     problems = []
     t_new = sorted(k for k in after if k.startswith('T/') and k not in before)
@@ -267,6 +267,9 @@ def _judge_put(before, after, entry, exit_code, label):
             if others:
                 problems.append('%s: other entries changed: %r' % (label, others[:3]))
     else:
+        if expect_success and entry is not None:
+            problems.append('%s: exit %r but the entry exists and must be '
+                            'trashed' % (label, exit_code))
         if work_changed:
             problems.append('%s: exit %r but the work tree changed: %r' % (
                 label, exit_code, work_changed[:4]))
@@ -291,7 +294,7 @@ def put_spellings_battery(repo, spellings=None, extra_args=()):
                          cwd=work)
             after = sb.snapshot()
             problems += _judge_put(before, after, entry, run['exit'],
-                                   'trash-put %s' % arg)
+                                   'trash-put %s' % arg, expect_success=True)
             if 'Traceback' in run['stderr']:
                 problems.append('trash-put %s: traceback' % arg)
     return {'confirmed': bool(problems), 'problems': problems[:12]}
@@ -507,6 +510,15 @@ def put_volumes_battery(repo):
         echo e > $R/home/e; XDG_DATA_HOME= $PY $PUT $R/home/e; echo "case6 $? $(ls -d $R/home/.local/share/Trash/files/e 2>/dev/null)"
         # 7. --trash-dir on another volume is refused (no cross-device copy)
         echo f > $R/vol1/f; $PY $PUT --trash-dir $R/vol2/T $R/vol1/f; echo "case7 $? $(ls -d $R/vol1/f 2>/dev/null) $(ls $R/vol2/T/files 2>/dev/null | wc -l)"
+        # 8. --trash-dir that is a symlink (on vol1) to a directory on vol2: refused as well
+        mkdir $R/vol2/T2; ln -s $R/vol2/T2 $R/vol1/Tlink
+        echo g > $R/vol1/g; $PY $PUT --trash-dir $R/vol1/Tlink $R/vol1/g; echo "case8 $? $(ls -d $R/vol1/g 2>/dev/null) $(ls $R/vol2/T2/files 2>/dev/null | wc -l)"
+        # 9. a mount point itself: must fail with the content in place and nothing new in any trash
+        mkdir $R/vol1/mp && mount -t tmpfs none $R/vol1/mp && echo h > $R/vol1/mp/h
+        before=$(find $R/vol1/.Trash-$uid $R/home -type f 2>/dev/null | wc -l)
+        $PY $PUT $R/vol1/mp; rc=$?
+        after=$(find $R/vol1/.Trash-$uid $R/home -type f 2>/dev/null | wc -l)
+        echo "case9 $rc $(ls $R/vol1/mp/h 2>/dev/null) $before $after"
     ''') % {'py': '/venv/bin/python', 'repo': repo}
     try:
         p = subprocess.run(['unshare', '-m', 'bash', '-c', script],
@@ -531,6 +543,8 @@ def put_volumes_battery(repo):
     expect('case5', lambda f: f[0] == '0' and len(f) == 3)
     expect('case6', lambda f: f[0] == '0' and len(f) == 2)
     expect('case7', lambda f: f[0] != '0' and len(f) == 3 and f[-1] == '0')
+    expect('case8', lambda f: f[0] != '0' and len(f) == 3 and f[-1] == '0')
+    expect('case9', lambda f: f[0] != '0' and len(f) == 4 and f[2] == f[3])
     modes = [l for l in out.split('\n') if l.startswith('mode1')]
     if len(modes) != 3 or any(l.split()[1] != '700' for l in modes):
         problems.append('created trash dirs are not 0700: %r' % modes)
